@@ -1,4 +1,6 @@
 import SafeNet.Proofs.StoreSchedule
+import SafeNet.Proofs.StoreFault
+import SafeNet.Proofs.StoreRelaxed
 /-!
 # C01 — validated records read back byte-exact from a node's store
 
@@ -7,6 +9,17 @@ Statements over `SafeNet.Store` (model of `ant-networking/src/record_store.rs`, 
 `run cfg dist ops` is the state after the history `ops` from a fresh store; schedules are part of the
 history (`Op.run id`, `Op.deliver id`), restricted only by `legalRun` / `legalDeliver`
 (per-key FIFO; tasks of different keys complete in any order).
+
+Which hypotheses each theorem carries:
+* none (full strength, every history, schedule, crash, disk fault): `get_sound`, `get_sound_faults`,
+  `failed_write_removes_key`, `no_notification_lost`, `put_local_record_types`;
+* `NoRemoveWhileInFlight` (no removal / eviction / clean-up of a key while a write or notification of it is pending, no
+  restart) AND per-key FIFO completion (`legalRun` / `legalDeliver`, built into `Op.run` / `Op.deliver`):
+  `settled_readback` = `settled_readback_partial`, `settled_readback_all` = `settled_readback_all_partial`;
+* additionally `BelowCapacity`: `schedule_independent_partial`;
+* additionally `NoWriteFault` (no spawned write fails): `settled_readback_faults_partial`.
+Refuted full statements: `SettledListedReadable` (K-a), `ScheduleIndependent` (at capacity), `SettledReadbackFaults`
+(a failed overwrite destroys the previous version too), `SettledReadbackAnyOrder` (same-key completion order, K-a2).
 -/
 namespace SafeNet.Props.C01
 open SafeNet.Store
@@ -247,6 +260,242 @@ example :
 /-- K-a's history violates the hypothesis: key 1 is removed while its overwrite is in flight -/
 example : nrwifB (Cfg.shipped 4 2) (fun k => k) (init (Cfg.shipped 4 2) (fun k => k)) danglingOps = false := by decide
 
+/-! ## correctly named aliases: the theorems above that carry `NoRemoveWhileInFlight` (and per-key FIFO) -/
+
+theorem settled_readback_partial (cfg : Cfg) (dist : Nat → Nat) (ops : List Op)
+    (hn : NoRemoveWhileInFlight cfg dist (init cfg dist) ops) (k : Nat) (hq : KeyQuiet (run cfg dist ops) k) :
+    match lastEvent cfg dist ops k with
+    | some (v, rt, _) =>
+      get cfg (run cfg dist ops) k = some (.whole v) ∧ lookup k (run cfg dist ops).index = some rt ∧
+        lookup k (run cfg dist ops).disk = some (.full v)
+    | none =>
+      get cfg (run cfg dist ops) k = none ∧ lookup k (run cfg dist ops).index = none ∧
+        lookup k (run cfg dist ops).disk = none :=
+  settled_readback cfg dist ops hn k hq
+
+theorem settled_readback_all_partial (cfg : Cfg) (dist : Nat → Nat) (ops : List Op)
+    (hn : NoRemoveWhileInFlight cfg dist (init cfg dist) ops) (hs : Settled (run cfg dist ops)) (k : Nat) :
+    match lastEvent cfg dist ops k with
+    | some (v, rt, _) =>
+      get cfg (run cfg dist ops) k = some (.whole v) ∧ lookup k (run cfg dist ops).index = some rt
+    | none => get cfg (run cfg dist ops) k = none ∧ contains (run cfg dist ops) k = false :=
+  settled_readback_all cfg dist ops hn hs k
+
+/-! ## the disk-write ERROR path (`Model/StoreFault`: `fs::write` fails ⇒ `RemoveFailedLocalRecord` ⇒ `remove`)
+
+`FOp.runFail id f`: write task `id` runs with fault `f` — `openFail` (nothing created or truncated), `full b` (the
+file is the `b`-byte prefix of the new ciphertext; a previous complete version is destroyed), `encryptFail` (no command
+at all). File states as measured on the real code (harness op `runfail`, RLIMIT_NOFILE / RLIMIT_FSIZE). -/
+
+/-- **Soundness of reads with failing writes.** Whatever history, schedule, crashes and disk faults: a read of `k`
+returns only a value handed to `put_verified` for `k`, and with record encryption the whole value — a torn or empty file
+left by a failed write is never served (it fails to decrypt: `readFile`, the AEAD abstraction of C02), also after the
+cache entry of the unpersisted value was evicted. -/
+theorem get_sound_faults (cfg : Cfg) (dist : Nat → Nat) (fops : List FOp) (k : Nat) (r : Read)
+    (h : get cfg (frun cfg dist fops).s k = some r) :
+    (∃ rt, FOp.base (.put k (readVal r) rt) ∈ fops) ∧ (cfg.encrypt = true → ∃ v, r = .whole v) := by
+  have hs : Sound (fun k v => ∃ rt, FOp.base (.put k v rt) ∈ fops) (frun cfg dist fops).s :=
+    Sound.frunFrom fops (Sound.init cfg dist) (fun op ho k v rt e => ⟨rt, e ▸ ho⟩)
+  exact hs.get h
+
+/-- **A failed write removes the key.** From ANY state in which write task `id` of key `k` may run and nothing else of
+`k` is pending: the write fails (at the open, or after `b` bytes). Until `RemoveFailedLocalRecord` is handled the index
+and the cache are untouched — the cache keeps serving the value that never reached the disk (and a repeated put of it is
+answered Ok by the cache-equality early return), for as long as the entry is not evicted and the command not handled.
+Once the command is handled the key is neither listed nor cached nor readable; once the file delete the handler
+spawned has run there is no file either. -/
+theorem failed_write_removes_key (cfg : Cfg) (dist : Nat → Nat) (fs : FSt) (id k v : Nat) (rt : RType) (f : Fault)
+    (ht : lookup id fs.s.tasks = some (.write k v rt)) (hl : legalRun fs.s.tasks id (.write k v rt) = true)
+    (hb : f.bites cfg v) (hne : f ≠ .encryptFail)
+    (hnotes : ∀ e ∈ fs.s.notes, e.1 ≠ id ∧ e.2.k ≠ k)
+    (htasks : ∀ e ∈ fs.s.tasks, e.1 < fs.s.nextId ∧ (e.1 ≠ id → taskKey e.2 ≠ some k)) :
+    let fs1 := (runFail cfg fs id f).1
+    let fs2 := (fdeliver dist fs1 id).1
+    let s3 := (runTask fs2.s fs.s.nextId).1
+    (runFail cfg fs id f).2 = .ranFail ∧ fs1.s.cache = fs.s.cache ∧ fs1.s.index = fs.s.index ∧
+    (fdeliver dist fs1 id).2 = .ok ∧ get cfg fs2.s k = none ∧ contains fs2.s k = false ∧
+    (runTask fs2.s fs.s.nextId).2 = .ran ∧
+    get cfg s3 k = none ∧ contains s3 k = false ∧ lookup k s3.disk = none :=
+  failed_write_chain cfg dist fs id k v rt f ht hl hb hne hnotes htasks
+
+/-- the history with every failing write replaced by the same write succeeding -/
+def eraseFault : FOp → Op
+  | .base op => op
+  | .runFail id _ => .run id
+
+/-- The settled read-back statement read literally with failing writes ("every accepted validated write is readable
+once settled": a put whose write later failed WAS accepted with Ok): the history with faults settles to what the last
+accepted put says. FALSE of the code, and of any store — a write that failed cannot be readable; what is specific to
+this code is that the failed OVERWRITE also destroys the previous complete version (`fs::write` truncates first, and
+the handler removes the key altogether). -/
+def SettledReadbackFaults : Prop :=
+  ∀ (cfg : Cfg) (dist : Nat → Nat) (fops : List FOp),
+    NoRemoveWhileInFlight cfg dist (init cfg dist) (fops.map eraseFault) →
+    ∀ k, KeyQuiet (frun cfg dist fops).s k → (frun cfg dist fops).failed = [] →
+    match lastEvent cfg dist (fops.map eraseFault) k with
+    | some (v, _, _) => get cfg (frun cfg dist fops).s k = some (.whole v)
+    | none => get cfg (frun cfg dist fops).s k = none
+
+def failedOverwriteOps : List FOp :=
+  [.base (.put 1 3 .chunk), .base (.run 1), .base (.deliver 1),   -- v1 stored and acknowledged
+   .base (.put 1 6 .chunk), .runFail 2 (.full 5),                 -- the overwrite fails after 5 bytes
+   .base (.deliver 2), .base (.run 3)]                            -- RemoveFailedLocalRecord handled, file delete ran
+
+/-- **Witness (replayed on the real store, corpus `write_fault_corpus`).** v1 stored and acknowledged; the overwrite
+with v2 is accepted (Ok) and fails after 5 bytes: the file is a 5-byte prefix (v1 is gone), the cache serves v2, the
+key is still listed; after the failure is handled and everything settled: nothing pending, the key not listed, no file,
+`get` = none — neither the accepted v2 nor the previously complete v1 is readable. -/
+theorem failed_overwrite_witness :
+    let cfg := Cfg.shipped 4 1
+    let d : Nat → Nat := fun k => k
+    let mid := frun cfg d (failedOverwriteOps.take 5)
+    let fin := frun cfg d failedOverwriteOps
+    lookup 1 mid.s.disk = some (.torn 6 5) ∧ get cfg mid.s 1 = some (.whole 6) ∧ contains mid.s 1 = true ∧
+    (putVerified cfg d mid.s 1 6 .chunk).2 = .dedup ∧
+    fin.s.tasks = [] ∧ fin.s.notes = [] ∧ fin.failed = [] ∧
+    get cfg fin.s 1 = none ∧ contains fin.s 1 = false ∧ lookup 1 fin.s.disk = none ∧
+    lastEvent cfg d (failedOverwriteOps.map eraseFault) 1 = some (6, .chunk, 2) ∧
+    nrwifB cfg d (init cfg d) (failedOverwriteOps.map eraseFault) = true := by
+  decide
+
+theorem settledReadbackFaults_false : ¬ SettledReadbackFaults := by
+  intro h
+  have w := failed_overwrite_witness
+  simp only at w
+  obtain ⟨_, _, _, _, w5, w6, w7, w8, _, _, w11, w12⟩ := w
+  have hq : KeyQuiet (frun (Cfg.shipped 4 1) (fun k => k) failedOverwriteOps).s 1 := keyQuiet_of_settled ⟨w5, w6⟩ 1
+  have := h (Cfg.shipped 4 1) (fun k => k) failedOverwriteOps (nrwifB_sound _ _ _ _ w12) 1 hq w7
+  rw [w11] at this
+  simp only at this
+  rw [w8] at this
+  exact absurd this (by decide)
+
+/-- no spawned write fails: the history is a history of the base model -/
+def NoWriteFault (fops : List FOp) (ops : List Op) : Prop := fops = ops.map .base
+
+/-- **Settled read-back with the error path in the model (partial).** Missing hypothesis of `SettledReadbackFaults`:
+`NoWriteFault`. Then it is `settled_readback_partial` (which carries `NoRemoveWhileInFlight` and per-key FIFO). -/
+theorem settled_readback_faults_partial (cfg : Cfg) (dist : Nat → Nat) (fops : List FOp) (ops : List Op)
+    (hnf : NoWriteFault fops ops) (hn : NoRemoveWhileInFlight cfg dist (init cfg dist) ops) (k : Nat)
+    (hq : KeyQuiet (frun cfg dist fops).s k) :
+    (frun cfg dist fops).failed = [] ∧
+    match lastEvent cfg dist ops k with
+    | some (v, rt, _) =>
+      get cfg (frun cfg dist fops).s k = some (.whole v) ∧ lookup k (frun cfg dist fops).s.index = some rt ∧
+        lookup k (frun cfg dist fops).s.disk = some (.full v)
+    | none =>
+      get cfg (frun cfg dist fops).s k = none ∧ lookup k (frun cfg dist fops).s.index = none ∧
+        lookup k (frun cfg dist fops).s.disk = none := by
+  unfold NoWriteFault at hnf
+  subst hnf
+  rw [frun_base] at hq ⊢
+  exact ⟨rfl, settled_readback cfg dist ops hn k hq⟩
+
+/-- non-vacuity of `failed_write_removes_key`'s hypotheses and of the window it describes, with tasks of another key
+interleaved: key 2's write completes between the failure and its handling -/
+example :
+    let cfg := Cfg.shipped 4 2
+    let d : Nat → Nat := fun k => k
+    let fs := frun cfg d [.base (.put 1 3 .chunk), .base (.put 2 9 .chunk), .runFail 1 .openFail, .base (.run 2),
+      .base (.deliver 2)]
+    get cfg fs.s 1 = some (.whole 3) ∧ contains fs.s 1 = false ∧ fs.failed = [1] ∧
+    (let fs' := frunFrom cfg d fs [.base (.deliver 1), .base (.run 3)]
+     get cfg fs'.s 1 = none ∧ get cfg fs'.s 2 = some (.whole 9) ∧ fs'.s.tasks = [] ∧ fs'.s.notes = []) := by
+  decide
+
+/-! ## same-key completion order (K-a2)
+
+Every theorem above that mentions a schedule assumes PER-KEY FIFO: `Op.run id` is legal only for the oldest pending task
+of its key (`legalRun`). The property's quantifier is wider ("all completion orders of the store's spawned disk-write,
+file-delete and completion-notification tasks"), and the shipped runtime gives no such guarantee: on tokio's multi-thread
+runtime (antnode: `Runtime::new()`) a task spawned from a worker takes the worker's LIFO slot, so of two tasks spawned
+back to back the SECOND runs first — measured on the real store with the harness op `lifo` (tokio's own order, nothing
+forced). `RelaxedOp.runAny id` is that freedom in the model (a separate legality; the theorems above are untouched). -/
+
+/-- `settled_readback`'s statement over histories in which same-key tasks may complete in any order. FALSE. -/
+def SettledReadbackAnyOrder : Prop :=
+  ∀ (cfg : Cfg) (dist : Nat → Nat) (rops : List RelaxedOp),
+    RNoRemoveWhileInFlight cfg dist (init cfg dist) rops → ∀ k, KeyQuiet (rrun cfg dist rops) k →
+    match rlastEvent cfg dist rops k with
+    | some (v, rt, _) =>
+      get cfg (rrun cfg dist rops) k = some (.whole v) ∧ lookup k (rrun cfg dist rops).index = some rt ∧
+        lookup k (rrun cfg dist rops).disk = some (.full v)
+    | none =>
+      get cfg (rrun cfg dist rops) k = none ∧ lookup k (rrun cfg dist rops).index = none ∧
+        lookup k (rrun cfg dist rops).disk = none
+
+/-- (a) `put k v1; put k v2` back to back; the second write completes first (LIFO slot), then the first: the file ends
+with v1. Key 2 is stored afterwards, which pushes key 1 out of the one-entry cache. -/
+def staleOverwriteOps : List RelaxedOp :=
+  [.base (.put 1 4 (.nonChunk (.whole 4))), .base (.put 1 7 (.nonChunk (.whole 7))), .runAny 2, .runAny 1,
+   .base (.deliver 2), .base (.deliver 1), .base (.put 2 9 .chunk), .base (.run 3), .base (.deliver 3)]
+
+/-- **K-a2 (a).** Nothing removed, nothing in flight at the end, the last accepted put of key 1 wrote value 7 — the
+settled store serves value 4 (an older accepted put; `get_sound` holds) and lists the key with the OLDER record type. -/
+theorem stale_overwrite_witness :
+    let cfg := Cfg.shipped 4 1
+    let d : Nat → Nat := fun k => k
+    let s := rrun cfg d staleOverwriteOps
+    rnrwifB cfg d (init cfg d) staleOverwriteOps = true ∧ s.tasks = [] ∧ s.notes = [] ∧
+    rlastEvent cfg d staleOverwriteOps 1 = some (7, .nonChunk (.whole 7), 2) ∧
+    get cfg s 1 = some (.whole 4) ∧ lookup 1 s.index = some (.nonChunk (.whole 4)) ∧
+    lookup 1 s.disk = some (.full 4) := by
+  decide
+
+/-- (b) capacity 1, key 1 held (so it is the farthest held record); an update of key 1: `prune_records_if_needed` evicts
+key 1 itself — index entry and the just-pushed cache entry erased, `remove_file` spawned — then `put_verified` spawns the
+write; the write runs before the delete (LIFO slot); the late `AddLocalRecordAsStored` lists the key. -/
+def selfEvictionOps : List RelaxedOp :=
+  [.base (.put 1 3 .chunk), .base (.run 1), .base (.deliver 1),
+   .base (.put 1 6 .chunk), .runAny 3, .runAny 2, .base (.deliver 3)]
+
+/-- **K-a2 (b).** No separate remove call (this is not K-a: the history satisfies `NoRemoveWhileInFlight`): the update
+returned Ok, nothing is in flight, the key is listed, its file is gone, `get` returns nothing. -/
+theorem self_eviction_witness :
+    let cfg := Cfg.shipped 1 2
+    let d : Nat → Nat := fun k => k
+    let s := rrun cfg d selfEvictionOps
+    (putVerified cfg d (rrun cfg d (selfEvictionOps.take 3)) 1 6 .chunk).2 = .ok ∧
+    rnrwifB cfg d (init cfg d) selfEvictionOps = true ∧ s.tasks = [] ∧ s.notes = [] ∧
+    rlastEvent cfg d selfEvictionOps 1 = some (6, .chunk, 3) ∧
+    contains s 1 = true ∧ get cfg s 1 = none ∧ lookup 1 s.disk = none := by
+  decide
+
+theorem settledReadbackAnyOrder_false : ¬ SettledReadbackAnyOrder := by
+  intro h
+  have w := stale_overwrite_witness
+  simp only at w
+  obtain ⟨w1, w2, w3, w4, w5, _, _⟩ := w
+  have := h (Cfg.shipped 4 1) (fun k => k) staleOverwriteOps (rnrwifB_sound _ _ _ _ w1) 1 (keyQuiet_of_settled ⟨w2, w3⟩ 1)
+  rw [w4] at this
+  simp only at this
+  rw [w5] at this
+  exact absurd this.1 (by decide)
+
+/-- per-key FIFO: the relaxed history uses no `runAny` -/
+def PerKeyFifo (rops : List RelaxedOp) (ops : List Op) : Prop := rops = ops.map .base
+
+/-- **Settled read-back over relaxed histories (partial).** Missing hypothesis of `SettledReadbackAnyOrder`:
+`PerKeyFifo` — then it is `settled_readback_partial`. -/
+theorem settled_readback_anyorder_partial (cfg : Cfg) (dist : Nat → Nat) (rops : List RelaxedOp) (ops : List Op)
+    (hf : PerKeyFifo rops ops) (hn : NoRemoveWhileInFlight cfg dist (init cfg dist) ops) (k : Nat)
+    (hq : KeyQuiet (rrun cfg dist rops) k) :
+    match rlastEvent cfg dist rops k with
+    | some (v, rt, _) =>
+      get cfg (rrun cfg dist rops) k = some (.whole v) ∧ lookup k (rrun cfg dist rops).index = some rt ∧
+        lookup k (rrun cfg dist rops).disk = some (.full v)
+    | none =>
+      get cfg (rrun cfg dist rops) k = none ∧ lookup k (rrun cfg dist rops).index = none ∧
+        lookup k (rrun cfg dist rops).disk = none := by
+  unfold PerKeyFifo at hf
+  subst hf
+  rw [rrun_base] at hq ⊢
+  rw [rlastEvent_base]
+  exact settled_readback cfg dist ops hn k hq
+
+/-- the worker's order for the tasks of one burst of calls: last spawned first, then spawn order (harness op `lifo`) -/
+example : lifoOrder [1, 2] = [2, 1] ∧ lifoOrder [4, 5, 6] = [6, 4, 5] ∧ lifoOrder [3] = [3] := by decide
+
 #print axioms SafeNet.Props.C01.get_sound
 #print axioms SafeNet.Props.C01.settled_readback
 #print axioms SafeNet.Props.C01.put_local_record_types
@@ -258,4 +507,15 @@ example : nrwifB (Cfg.shipped 4 2) (fun k => k) (init (Cfg.shipped 4 2) (fun k =
 #print axioms SafeNet.Props.C01.get_sound_shipped
 #print axioms SafeNet.Props.C01.dangling_index_witness
 #print axioms SafeNet.Props.C01.settledListedReadable_false
+#print axioms SafeNet.Props.C01.settled_readback_partial
+#print axioms SafeNet.Props.C01.settled_readback_all_partial
+#print axioms SafeNet.Props.C01.get_sound_faults
+#print axioms SafeNet.Props.C01.failed_write_removes_key
+#print axioms SafeNet.Props.C01.failed_overwrite_witness
+#print axioms SafeNet.Props.C01.settledReadbackFaults_false
+#print axioms SafeNet.Props.C01.settled_readback_faults_partial
+#print axioms SafeNet.Props.C01.stale_overwrite_witness
+#print axioms SafeNet.Props.C01.self_eviction_witness
+#print axioms SafeNet.Props.C01.settledReadbackAnyOrder_false
+#print axioms SafeNet.Props.C01.settled_readback_anyorder_partial
 end SafeNet.Props.C01
